@@ -207,18 +207,46 @@ func (c *c14) delegation(ch *kernel.Chooser) string {
 	if ch.Bool(1, 5) {
 		kid = "other-kid"
 	}
-	p := mkAssertion(w, iss, sub, signer, kid, []string{w.Issuer}, now, now.Add(time.Hour))
-	v := op.NewJWTProfileVerifier(w.OP.Storage, w.Issuer, time.Hour, time.Second, op.SubjectCheck(func(*oidc.JWTTokenRequest) error { return nil }))
+	// the verifier is built through the public API with its own limits: maximum age of the assertion and the offset
+	// by which its clock runs ahead; the assertion's times are placed around the limits these settings imply
+	maxAge := []time.Duration{time.Hour, 10 * time.Minute}[ch.Int(2)]
+	offset := []time.Duration{0, time.Second, time.Minute, 5 * time.Minute}[ch.Int(4)]
+	iat, exp := now, now.Add(time.Hour)
+	timing := "fresh"
+	switch ch.Int(6) {
+	case 0: // expires inside the offset window: with the clock offset ahead it is already expired
+		exp, timing = now.Add(offset/2), "exp-inside-offset"
+	case 1:
+		exp, timing = now.Add(-10*time.Second), "expired-10s-ago"
+	case 2:
+		exp, timing = now.Add(offset+10*time.Second), "exp-just-beyond-offset"
+	case 3:
+		iat, timing = now.Add(-maxAge-10*time.Second), "older-than-max-age"
+	case 4:
+		iat, exp, timing = now.Add(offset+10*time.Second), now.Add(2*time.Hour), "issued-beyond-offset-in-future"
+	}
+	p := mkAssertion(w, iss, sub, signer, kid, []string{w.Issuer}, iat, exp)
+	v := op.NewJWTProfileVerifier(w.OP.Storage, w.Issuer, maxAge, offset, op.SubjectCheck(func(*oidc.JWTTokenRequest) error { return nil }))
 	req, err := op.VerifyJWTAssertion(context.Background(), p.creds.Assertion, v)
-	// reference: as assertionValid, with the sub = iss conjunct dropped
+	// reference: as assertionValid (key of the issuer, audience, times under these limits), with the sub = iss
+	// conjunct dropped
 	cl := w.Store.Clients[iss]
 	valid := cl != nil && cl.Key != nil && p.assertKeyOf == iss && p.assertKid == cl.Key.KeyID
-	desc := fmt.Sprintf("delegating verifier: iss=%s sub=%s signed-by=%q kid=%q -> accepted=%v (model valid=%v)", iss, sub, signer, p.assertKid, err == nil, valid)
+	undecided := false
+	if valid {
+		q := p
+		q.assertSub = q.assertIss
+		valid, undecided = assertionValid(w, q, now, maxAge, offset)
+	}
+	desc := fmt.Sprintf("delegating verifier(maxAge=%v offset=%v): iss=%s sub=%s signed-by=%q kid=%q times=%s -> accepted=%v (model valid=%v undecided=%v)", maxAge, offset, iss, sub, signer, p.assertKid, timing, err == nil, valid, undecided)
+	if undecided {
+		return desc
+	}
 	c.o.Probe("delegation-cases")
 	if err == nil {
 		c.o.Probe("delegation-accepted")
 		if !valid {
-			c.viol("invalid-assertion-accepted", "delegating-verifier", "%s: accepted although it is not signed with a key the storage holds for the issuer", desc)
+			c.viol("invalid-assertion-accepted", "delegating-verifier", "%s: accepted although it is not valid under this verifier (key of the issuer, audience, expiry, age)", desc)
 		}
 		if req.Issuer != iss {
 			c.viol("identity", "delegating-verifier", "%s: identity %q", desc, req.Issuer)
